@@ -141,15 +141,18 @@ func valueType(s Schema, t Term) string {
 		if strings.HasPrefix(t.A, "disc:") {
 			out = "constant string"
 		}
+		if lit := strings.TrimPrefix(t.A, "num:"); lit != t.A {
+			out = "constant number " + boundaryName[lit]
+		}
 	case "constref":
 		out = "constant reference to an enum member"
 	case "enum":
-		out = map[string]string{"str": "string", "int": "integer"}[t.A] + " enum member"
+		out = map[string]string{"str": "string", "int": "integer", "big": "integer (beyond 2^53)"}[t.A] + " enum member"
 	case "ref":
 		target, _ := s.Lookup(refTarget(t))
 		switch target.K {
 		case "enum":
-			out = map[string]string{"str": "string", "int": "integer"}[target.A] + " enum member through a reference"
+			out = map[string]string{"str": "string", "int": "integer", "big": "integer (beyond 2^53)"}[target.A] + " enum member through a reference"
 			if t.Default == "refand" {
 				out += " (E & (*m | _))"
 			} else {
@@ -179,6 +182,9 @@ func valueType(s Schema, t Term) string {
 			}
 			out = which + " branch of (" + valueType(s, t.Sub[0]) + "|" + valueType(s, t.Sub[1]) + ")"
 		}
+	}
+	if t.Default == "emap" || t.Default == "estruct" {
+		out = map[string]string{"map": "map", "struct": "inline struct", "ref": "referenced struct"}[t.K] + " = {}"
 	}
 	if t.Nullable {
 		out = "nullable " + out
@@ -223,6 +229,9 @@ func constantOf(s Schema, t Term) (any, bool) {
 		}
 		if strings.HasPrefix(t.A, "disc:") {
 			return strings.TrimPrefix(t.A, "disc:"), true
+		}
+		if strings.HasPrefix(t.A, "num:") {
+			return json.Number(strings.TrimPrefix(t.A, "num:")), true
 		}
 	case "constref":
 		return "a", true // gschema renders a constant reference as `E & "a"`
@@ -290,6 +299,10 @@ var scopeCache = map[string]bool{}
 // inScope reports whether format's own reference validator accepts
 // {f: default} for a schema holding just that field (plus the objects it references).
 func inScope(s Schema, e expectation, format string) (ok bool, why string) {
+	if e.Constant && e.T.K == "const" && e.T.A == "num:"+maxUint64 && format != "cue" {
+		// only CUE has an unsigned 64-bit type; JSON Schema integers are mapped to int64, which cannot hold it
+		return false, "MaxUint64 constant outside CUE (no unsigned type to hold it)"
+	}
 	if e.Constant {
 		if format == "openapi" {
 			// OpenAPI 3.0 has no `const`; gschema renders discriminator constants as a
@@ -561,6 +574,17 @@ func main() {
 					vt = valueType(c.Schema, e.T.Sub[0]) + "|" + valueType(c.Schema, e.T.Sub[1]) + ", " + e.Note
 				}
 				vt += " (declared through " + e.ViaPass + ")"
+			}
+			// which VALUE was declared matters only where the value itself is what goes wrong:
+			// a zero value that is dropped/nulled, a boundary number that is altered. The
+			// json.Number re-typing (number became string) is one defect whatever the value.
+			if !strings.Contains(diag, "number became string") {
+				switch {
+				case e.T.Default == "zero":
+					vt += " = zero value"
+				case strings.HasPrefix(e.T.Default, "big:") && strings.Contains(diag, "altered"):
+					vt += " = " + boundaryName[strings.TrimPrefix(e.T.Default, "big:")]
+				}
 			}
 			base += " @ " + e.pos() + " " + vt
 			bump("fail:" + clause)
